@@ -693,3 +693,19 @@ def rule_torsions_can_be_set(prog, rep):
     for ob in src.obs:
         if ob.key == "no-ring-bonds" or ob.key.startswith(("left-behind|", "atom|")):
             r.add(ob.key, ob.ok, ob.what, ob.where)
+    # the four atoms of every tabulated torsion - of the residues and of every patched form PATCHES.xml generates - are bonded in a row: otherwise
+    # the fourth atom does not hang from the rotated bond and setting the torsion moves something else
+    from ..tables import Tables
+    t = Tables(prog.root)
+    n_dih, loose = 0, []
+    for name, ref in t.map.items():
+        for dih in ref.dihedrals:
+            a = dih.split()
+            if len(a) != 4 or any(x not in ref.atoms for x in a):
+                continue
+            n_dih += 1
+            for x, y in zip(a, a[1:]):
+                if y not in ref.atoms[x].bonds and x not in ref.atoms[y].bonds:
+                    loose.append(f"{name}: {dih} ({x}-{y} is not a bond)")
+    r.add("torsion-atoms-bonded-in-a-row", not loose and n_dih > 300, f"{n_dih} tabulated torsions (residues and patched forms): consecutive atoms are bonded"
+          + (f" - NOT so: {loose[:4]}" if loose else ""), "pdb2pqr/dat/AA.xml, NA.xml, PATCHES.xml")
